@@ -227,6 +227,12 @@ def _torsion_domain(group, env, thorough):
     return dom, primes
 
 
+def _m61(cfg):
+    """a scaling whose coefficients are multiples of 2^61 - 1 (CPython's int-hash modulus)"""
+    m = (1 << 61) - 1
+    return m if cfg.mc is None else (m, 2 * m)
+
+
 def _full_case(group, P, lam, which):
     d = params.curves()["bls12_381"]
     E = d[group]
@@ -266,6 +272,7 @@ def task_full(a, env):
     lams = C07_full.scalings(cfg, env, "C17" + group)
     if not thorough:
         lams = lams[:1] + lams[-1:]
+    lams = lams + [_m61(cfg)]
     r.notes["cofactor_primes_found"] = {str(q): 1 for q in primes}
     d = params.curves()["bls12_381"]
     sel = dom[a["lo"]::a["step"]]
@@ -300,6 +307,7 @@ def replay_full(a):
     lams = C07_full.scalings(cfg, env, "C17" + a["group"])
     if not thorough:
         lams = lams[:1] + lams[-1:]
+    lams = lams + [_m61(cfg)]
     label, P = dom[a["idx"]]
     base = list(lams if P is not None else [0, 1, 2])
     allreps = base + ([("fq", x) for x in base[:2]] if a["group"] == "E2" else [])
